@@ -13,7 +13,7 @@ for d in seeded/neutral/*.diff; do
   git -C /repo diff --quiet || { echo "/repo dirty"; exit 2; }
   git -C /repo apply $PWD/$d || { echo "$n does not apply"; continue; }
   t=$(cd /repo && /venv/bin/python -m pytest -q -p no:cacheprovider --timeout=900 2>&1 | tail -1 | cut -c1-40)
-  ./check $prop --tier quick > /tmp/neutral_$n.log 2>&1; rc=$?
+  VERIF_EVIDENCE_DIR=$PWD/.cache/neutral-evidence ./check $prop --tier quick > /tmp/neutral_$n.log 2>&1; rc=$?
   v=$(grep -c '^VIOLATION' /tmp/neutral_$n.log)
   git -C /repo checkout -- .
   res="exit $rc, $v violations"; [ $rc -eq 0 ] && [ $v -eq 0 ] && res="silent (exit 0)"
